@@ -206,6 +206,49 @@ pub fn run(cfg: &Cfg, out: &mut Out) -> String {
         }
         idx += 1;
     }
+    // slot independence, systematically: for every ordered pair of the nine slot classes (which known dimensions are set ×
+    // which unknown axes are min-content) store A, store B, then look both up — a later store may only displace an
+    // earlier one of the SAME class
+    {
+        let kds: [(bool, bool); 4] = [(true, true), (true, false), (false, true), (false, false)];
+        let avs: [(AvailableSpace, AvailableSpace); 9] = [
+            (AvailableSpace::MaxContent, AvailableSpace::MaxContent),
+            (AvailableSpace::MaxContent, AvailableSpace::MinContent),
+            (AvailableSpace::MinContent, AvailableSpace::MaxContent),
+            (AvailableSpace::MinContent, AvailableSpace::MinContent),
+            (AvailableSpace::Definite(7.5), AvailableSpace::MinContent),
+            (AvailableSpace::MinContent, AvailableSpace::Definite(7.5)),
+            (AvailableSpace::Definite(7.5), AvailableSpace::Definite(100.0)),
+            (AvailableSpace::Definite(7.5), AvailableSpace::MaxContent),
+            (AvailableSpace::MaxContent, AvailableSpace::Definite(100.0)),
+        ];
+        let mut keys = vec![];
+        for (i, (kw, kh)) in kds.iter().enumerate() {
+            for (j, (aw, ah)) in avs.iter().enumerate() {
+                // distinct known values per key so that two keys are never compatible with each other's stored size
+                let w = if *kw { Some(10.0 + (i * 9 + j) as f32) } else { None };
+                let h = if *kh { Some(200.0 + (i * 9 + j) as f32) } else { None };
+                keys.push((Size { width: w, height: h }, Size { width: *aw, height: *ah }));
+            }
+        }
+        for (a, ka) in keys.iter().enumerate() {
+            if cfg.wants(idx) {
+                out.begin_case(idx, "slot-pairs");
+                let mut ops = vec![];
+                for (b, kb) in keys.iter().enumerate() {
+                    let oa = LayoutOutput::from_outer_size(Size { width: 1000.0 + a as f32, height: 2000.0 + a as f32 });
+                    let ob = LayoutOutput::from_outer_size(Size { width: 3000.0 + b as f32, height: 4000.0 + b as f32 });
+                    ops.push(Op::Clear);
+                    ops.push(Op::Store(ka.0, ka.1, RunMode::ComputeSize, oa));
+                    ops.push(Op::Store(kb.0, kb.1, RunMode::ComputeSize, ob));
+                    ops.push(Op::Get(ka.0, ka.1, RunMode::ComputeSize));
+                    ops.push(Op::Get(kb.0, kb.1, RunMode::ComputeSize));
+                }
+                exec(out, &ops);
+            }
+            idx += 1;
+        }
+    }
     for _ in 0..n {
         if cfg.wants(idx) {
             let mut r = Rng::for_case(cfg.seed, idx);
